@@ -195,6 +195,148 @@ def gen_qeireal(rng):
               direct=rng.random() < 0.3, seed=rng.randrange(2 ** 31))
 
 
+def rounding_bounds(cur, xs):
+  """Independent posterior of the data `cur` at xs (gpgen's saddle point in extended precision) with the justified rounding bounds of the library's
+  double computation - the reading "conditioning-scaled rounding" of DESIGN 11.5 as C02's searcher states it: forward error of the Cholesky solves,
+  first-order effect of the kernel-entry rounding, forward error of the GLS coefficient solve.  Returns mean, cov, cond, tol_mean, tol_var."""
+  g = dict(cur, xs=[list(map(float, x)) for x in xs])
+  rm, _, rc, cond = gpgen.reference_posterior(g)
+  ex, dk = gpgen.reference_posterior.extra, gpgen.kernel_entry_error(g)
+  alpha = g["cov"]["hp"][0]
+  scale = max(1.0, float(numpy.abs(g["values"]).max()))
+  tol_m = (1e-14 * cond * (alpha * ex["a_l1"] + float(numpy.abs(rm).max()) + scale) + 4 * dk * ex["a_l1"] + 1e-9 * scale
+           + 1e-14 * ex["gls_cond"] * (1 + cond * 1e-6) * ex["pb_l1"])
+  tol_v = 1e-14 * cond * alpha * (1 + ex["card_l1"]) ** 2 + 8 * dk * ex["card_l1"] + 1e-9 * alpha
+  return rm, rc, cond, tol_m, tol_v
+
+
+SAMPLE_STATS = {}      # how the sample-moment cases of this run were decided; reported by search()
+
+
+def _sstat(key):
+  SAMPLE_STATS[key] = SAMPLE_STATS.get(key, 0) + 1
+
+
+def _historical(points, values, noise, dim):
+  from libsigopt.compute.misc.data_containers import HistoricalData
+  hd = HistoricalData(dim)
+  hd.append_historical_data(numpy.array(points, dtype=float).reshape(len(points), dim), numpy.array(values, dtype=float), numpy.array(noise, dtype=float))
+  return hd
+
+
+def oracle_samples(inp, fail):
+  """Sample moments of draws from a GP / a sum of GPs against the posterior of THE DATA THE MODEL HOLDS NOW, whatever the history of the live
+  object: the whole data set replaced (update_historical_data with data that do not extend the old ones), earlier draws, appended lies, extended
+  data.  The data held now are known from the input at every step, so the posterior is always the independent closed form (gpgen saddle point) -
+  for every mean (zero, constant, linear, custom monomials) and every diagonal (recorded noise; a supplied nugget, which REPLACES the recorded
+  noise, a nugget of exactly 0 included: an interpolating model whose samples at its training points reproduce the data)."""
+  gi = inp["gp"]
+  dim = len(gi["points"][0])
+  comps = [gi] + ([dict(gi, values=list(reversed(gi["values"])))] if inp.get("sum") else [])
+  try:
+    gps = [gpgen.make_gp(g) for g in comps]
+  except numpy.linalg.LinAlgError:
+    if gi.get("tikhonov") == 0.0:
+      _sstat("skipped:nugget-0-factorisation-fails")
+      return None       # reading of DESIGN 11.5: a request on which the factorisation fails because the supplied nugget is 0 is skipped
+    raise
+  cur = [dict(g) for g in comps]              # the data each component holds now
+  xs = numpy.array(gi["xs"], dtype=float).reshape(len(gi["xs"]), dim)
+  if inp.get("repeat_point"):
+    xs = numpy.vstack([xs, xs[:1]])
+  training = inp.get("entry") == "training" and not inp.get("sum")
+  new = inp.get("replace")
+  if new:
+    # the data of the live object replaced as a whole, before the model (the sum) is formed; optionally after a draw from the old posterior
+    for k, g in enumerate(gps):
+      if new.get("draw_before"):
+        g.draw_posterior_samples_of_points(5, xs)
+      vals = list(new["values"]) if k == 0 else list(reversed(new["values"]))
+      try:
+        g.update_historical_data(_historical(new["points"], vals, new["noise"], dim))
+      except numpy.linalg.LinAlgError:
+        if gi.get("tikhonov") == 0.0:
+          _sstat("skipped:nugget-0-factorisation-fails")
+          return None
+        raise
+      cur[k] = dict(cur[k], points=[list(p) for p in new["points"]], values=vals, noise=list(new["noise"]))
+  gp = gps[0]
+  if inp.get("sum"):
+    from libsigopt.compute.gaussian_process_sum import GaussianProcessSum
+    if inp.get("weights_inplace"):    # the sum holds the caller's weight array by reference: it is the model with the weights that array holds NOW
+      warr = numpy.array([3.0 * w + 1.0 for w in inp["sum"]], dtype=float)
+      model = GaussianProcessSum(gps, warr)
+      _ = model.compute_mean_of_points(xs), model.compute_covariance_of_points(xs)
+      warr[:] = inp["sum"]
+    else:
+      model = GaussianProcessSum(gps, inp["sum"])
+  else:
+    model = gp
+  numpy.random.seed(inp["seed"])
+  N = inp["draws"]
+  if training:
+    xs = numpy.array(gp.points_sampled, dtype=float)
+  # a history of operations before the draw that is checked: earlier draws at the same points, then new data (the factor must be
+  # the one of the CURRENT posterior covariance)
+  for step in inp.get("steps") or []:
+    if step == "draw":
+      model.draw_posterior_samples(7) if training else model.draw_posterior_samples_of_points(7, xs)
+    elif step == "append_lie":
+      model.append_lie_data(numpy.array(inp["extra_points"], dtype=float))
+      for c in cur:     # constant liar (minimisation): the lie is the worst value held, with the lie noise variance 1e-12
+        c.update(points=c["points"] + [list(p) for p in inp["extra_points"]], values=c["values"] + [max(c["values"])] * len(inp["extra_points"]),
+                 noise=list(c["noise"]) + [1e-12] * len(inp["extra_points"]))
+    elif step == "update" and not inp.get("sum"):
+      c = cur[0]
+      c.update(points=c["points"] + [list(p) for p in inp["extra_points"]], values=c["values"] + list(inp["extra_values"]),
+               noise=list(c["noise"]) + [1e-3] * len(inp["extra_points"]))
+      gp.update_historical_data(_historical(c["points"], c["values"], c["noise"], dim))
+  if training:
+    xs = numpy.array(gp.points_sampled, dtype=float)
+  S = model.draw_posterior_samples(N) if training else model.draw_posterior_samples_of_points(N, xs)
+  own = (model.compute_mean_of_points(xs), model.compute_covariance_of_points(xs))
+  ws = inp["sum"] if inp.get("sum") else [1.0]
+  if training:         # the training points are those of the data held now (deep-compared: the model must hold exactly the data it was given)
+    if xs.shape != (len(cur[0]["points"]), dim) or not numpy.array_equal(xs, numpy.array(cur[0]["points"], dtype=float)):
+      return fail("the model does not hold the data it was given", xs.tolist(), cur[0]["points"])
+  try:
+    refs = [rounding_bounds(c, xs) for c in cur]
+  except numpy.linalg.LinAlgError:      # the closed form itself cannot be solved in double precision: only the model's own posterior is compared
+    refs = [(None, None, float("inf"), 0.0, 0.0) for _ in cur]
+  independent = max(r[2] for r in refs) < 1e9
+  _sstat(("independent-posterior" if independent else "library-posterior(cond>=1e9)") + (":nugget-0" if gi.get("tikhonov") == 0.0 else ""))
+  # the justified rounding of the library's double computation (it matters where the posterior variance vanishes: training points of a
+  # noise-free / interpolating model); a weighted sum of independent GPs has the weighted mean and the squared-weight covariance
+  tol_m = sum(abs(w) * r[3] for w, r in zip(ws, refs))
+  tol_v = sum(w * w * r[4] for w, r in zip(ws, refs))
+  posteriors = []
+  if independent:
+    # the posterior mean and covariance "of the model" known independently of the library
+    posteriors.append((sum(w * r[0] for w, r in zip(ws, refs)), sum(w * w * r[1] for w, r in zip(ws, refs))))
+  # ... and the mean and covariance the model itself reports (what parallel EI factors): the samples must have those too - always compared;
+  # the only comparison when the data are too ill-conditioned for the closed form
+  posteriors.append(own)
+  for mean, cov in posteriors:      # bands: statistical (6 sigma at N draws) + rounding
+    sd = numpy.sqrt(numpy.maximum(numpy.diag(cov), 0) + 4 * tol_v)
+    tol_mean = 6 * sd / numpy.sqrt(N) + tol_m + 1e-6 * (1 + numpy.abs(mean))
+    if (numpy.abs(S.mean(axis=0) - mean) > tol_mean).any():
+      return fail("sample mean differs from the posterior mean", S.mean(axis=0).tolist(), mean.tolist())
+    D = S - mean[None, :]
+    emp = D.T @ D / N
+    band = 6 * numpy.sqrt(2.0 / N) * numpy.outer(sd, sd) + 4 * tol_v + tol_m ** 2 + 1e-6 * float(numpy.abs(cov).max()) + 1e-9
+    if (numpy.abs(emp - cov) > band).any():
+      return fail("sample covariance differs from the posterior covariance", emp.tolist(), cov.tolist())
+  if gi.get("tikhonov") == 0.0 and training and not independent:
+    # interpolating model (nugget exactly 0, whatever noise was recorded) too ill-conditioned for the closed form above: at its own training
+    # points the samples still reproduce the data, up to the conditioning-scaled rounding of the mean and 6 standard deviations of the
+    # rounding-level variance
+    y = numpy.array(cur[0]["values"], dtype=float)
+    t = refs[0][3] + 6 * numpy.sqrt(4 * refs[0][4] / N) + 1e-6 * (1 + numpy.abs(y))
+    if (numpy.abs(S.mean(axis=0) - y) > t).any():
+      return fail("samples of an interpolating model (nugget 0) at its training points do not reproduce the data", S.mean(axis=0).tolist(), y.tolist())
+  return None
+
+
 def oracle(inp):
   from libsigopt.compute.python_utils import compute_cholesky_for_gp_sampling
   def fail(what, observed, expected):
@@ -202,65 +344,7 @@ def oracle(inp):
   if inp["kind"] == "qeireal":
     return oracle_qeireal(inp)
   if inp["kind"] == "samples":
-    gi = inp["gp"]
-    gp = gpgen.make_gp(gi)
-    xs = numpy.array(gi["xs"], dtype=float)
-    if inp.get("repeat_point"):
-      xs = numpy.vstack([xs, xs[:1]])
-    if inp.get("sum"):
-      from libsigopt.compute.gaussian_process_sum import GaussianProcessSum
-      gp2 = gpgen.make_gp(dict(gi, values=list(reversed(gi["values"]))))
-      if inp.get("weights_inplace"):    # the sum holds the caller's weight array by reference: it is the model with the weights that array holds NOW
-        warr = numpy.array([3.0 * w + 1.0 for w in inp["sum"]], dtype=float)
-        model = GaussianProcessSum([gp, gp2], warr)
-        _ = model.compute_mean_of_points(xs), model.compute_covariance_of_points(xs)
-        warr[:] = inp["sum"]
-      else:
-        model = GaussianProcessSum([gp, gp2], inp["sum"])
-    else:
-      model = gp
-    numpy.random.seed(inp["seed"])
-    N = inp["draws"]
-    training = inp.get("entry") == "training" and not inp.get("sum")
-    if training:
-      xs = numpy.array(gp.points_sampled, dtype=float)
-    # a history of operations before the draw that is checked: earlier draws at the same points, then new data (the factor must be
-    # the one of the CURRENT posterior covariance)
-    for step in inp.get("steps") or []:
-      if step == "draw":
-        model.draw_posterior_samples(7) if training else model.draw_posterior_samples_of_points(7, xs)
-      elif step == "append_lie":
-        model.append_lie_data(numpy.array(inp["extra_points"], dtype=float))
-      elif step == "update" and not inp.get("sum"):
-        from libsigopt.compute.misc.data_containers import HistoricalData
-        hd = HistoricalData(gp.dim)
-        hd.append_historical_data(numpy.vstack([gp.points_sampled, numpy.array(inp["extra_points"], dtype=float)]),
-                                  numpy.concatenate([gp.points_sampled_value, numpy.array(inp["extra_values"], dtype=float)]),
-                                  numpy.concatenate([gp.points_sampled_noise_variance, numpy.full(len(inp["extra_points"]), 1e-3)]))
-        gp.update_historical_data(hd)
-    if training and inp.get("steps") and not inp.get("sum"):
-      xs = numpy.array(gp.points_sampled, dtype=float)
-    S = model.draw_posterior_samples(N) if training else model.draw_posterior_samples_of_points(N, xs)
-    mean, cov = model.compute_mean_of_points(xs), model.compute_covariance_of_points(xs)
-    if not (inp.get("steps") or []) or all(st == "draw" for st in inp["steps"]):
-      # the data are still those of the input: the posterior mean and covariance "of the model" are then also known independently of the library
-      # (gpgen's saddle-point closed form; a weighted sum of independent GPs has the weighted mean and the squared-weight covariance).  The bands
-      # below are statistical (6 sigma at N draws), far wider than the closed form's rounding
-      ws, gis = (inp["sum"], [gi, dict(gi, values=list(reversed(gi["values"])))]) if inp.get("sum") else ([1.0], [gi])
-      refs = [gpgen.reference_posterior(dict(g, xs=xs.tolist())) for g in gis]
-      if max(r[3] for r in refs) < 1e9:
-        mean = sum(w * r[0] for w, r in zip(ws, refs))
-        cov = sum(w * w * r[2] for w, r in zip(ws, refs))
-    sd = numpy.sqrt(numpy.maximum(numpy.diag(cov), 0))
-    tol_mean = 6 * sd / numpy.sqrt(N) + 1e-6 * (1 + numpy.abs(mean))
-    if (numpy.abs(S.mean(axis=0) - mean) > tol_mean).any():
-      return fail("sample mean differs from the posterior mean", S.mean(axis=0).tolist(), mean.tolist())
-    D = S - mean[None, :]
-    emp = D.T @ D / N
-    band = 6 * numpy.sqrt(2.0 / N) * numpy.outer(sd, sd) + 1e-6 * float(numpy.abs(cov).max()) + 1e-9
-    if (numpy.abs(emp - cov) > band).any():
-      return fail("sample covariance differs from the posterior covariance", emp.tolist(), cov.tolist())
-    return None
+    return oracle_samples(inp, fail)
   A = build_matrix(inp)
   keep = A.copy()
   L = compute_cholesky_for_gp_sampling(A)
@@ -288,6 +372,67 @@ def gen_input(rng, samples_ok):
   kind = rng.choice(["lowrank", "lowrank", "illcond", "gram", "zeroblock"])
   return dict(kind=kind, n=n, rank=rng.randint(0, n), seed=rng.randrange(10 ** 6), order=rng.choice(["C", "F"]), scale=10.0 ** rng.randint(-4, 4),
               logcond=rng.choice([2, 8, 14, 18]), repeats=rng.randint(0, max(0, n - 1)))
+
+
+MEAN_KINDS = ("zero", "constant", "linear", "custom")
+LIVES = ("replace-fewer", "replace-same", "replace-more", "draw-replace", "draw-append_lie", "draw-update", "replace-append_lie")
+DIAGONALS = ("noise", "nugget0+noise", "nugget+noise", "nugget", "nugget0")
+
+
+def gen_history_samples(rng, i):
+  """Draws from a live GP (or a sum built on live GPs) over the product of
+    mean      zero / constant / linear / custom monomials (the polynomial matrix of the mean belongs to the data: it must follow them),
+    life      the whole data set replaced by fewer / as many / more points elsewhere (update_historical_data with data that do NOT extend the
+              old ones), with or without a draw before; draw then lies / extended data; replacement then lies,
+    diagonal  recorded noise; a supplied nugget together with non-zero recorded noise (the nugget replaces it) - exactly 0 (an interpolating
+              model: valid, DESIGN 11.5) or positive; a nugget on a noise-free history.
+  The three cycles have pairwise coprime lengths driven by the case index i: every combination occurs within 4 * 7 * 5 = 140 cases and every PAIR
+  within 35, independently of the random stream."""
+  mk, life, dg = MEAN_KINDS[i % 4], LIVES[i % 7], DIAGONALS[i % 5]
+  gi = gpgen.gen_gp_input(rng, well_conditioned=True, allow_multitask=False, max_n=7, caller_writes=True)
+  dim, n = len(gi["points"][0]), len(gi["points"])
+  if mk == "zero":
+    gi["mean_idx"] = None
+  elif mk == "constant":
+    gi["mean_idx"] = [[0] * dim]
+  elif mk == "linear":
+    gi["mean_idx"] = [[0] * dim] + [[int(a == b) for a in range(dim)] for b in range(dim)]
+  else:
+    e = [0] * dim
+    e[rng.randrange(dim)] = rng.choice([1, 2])
+    gi["mean_idx"] = rng.choice([[e], [[0] * dim, e], [e, [2 if k == 0 else 0 for k in range(dim)]]])
+    if len(gi["mean_idx"]) == 2 and gi["mean_idx"][0] == gi["mean_idx"][1]:
+      gi["mean_idx"] = [e]
+  terms = len(gi["mean_idx"] or [])
+  if dg == "nugget0+noise":
+    gi["tikhonov"] = 0.0
+  elif dg == "nugget+noise":
+    gi["tikhonov"] = rng.choice([1e-6, 1e-3, 0.05])
+  elif dg in ("nugget", "nugget0"):
+    gi["noise"] = [0.0] * n
+    gi["tikhonov"] = 0.0 if dg == "nugget0" else rng.choice([1e-3, 0.05])
+  if gi.get("tikhonov") == 0.0 and gi["cov"]["cls"] == "SquareExponential" and rng.random() < 0.7:
+    gi["cov"]["cls"] = rng.choice(["C0RadialMatern", "C2RadialMatern"])     # keep most interpolating models decidable by the closed form (cond < 1e9)
+  k = rng.randint(1, 2)
+  inp = dict(kind="samples", gp=gi, seed=rng.randrange(10 ** 6), draws=20000, repeat_point=rng.random() < 0.3,
+             sum=[rng.choice([rng.uniform(0.2, 0.8), -rng.uniform(0.2, 0.8)]), rng.uniform(0.2, 0.8)] if rng.random() < 0.25 else None,
+             weights_inplace=rng.random() < 0.3, entry=rng.choice(["of_points", "training"]), steps=[],
+             extra_points=[[rng.uniform(0, 1) for _ in range(dim)] for _ in range(k)], extra_values=[rng.uniform(-1, 1) for _ in range(k)])
+  if rng.random() < 0.4:
+    gi["xs"][0] = list(gi["points"][rng.randrange(n)])       # a query on a point of the ORIGINAL data (a training point only while they are held)
+  if "replace" in life:
+    n2 = {"replace-fewer": n - rng.randint(1, 2), "replace-same": n, "replace-more": n + rng.randint(1, 2)}.get(life, n + rng.choice([-1, 0, 1]))
+    n2 = max(n2, terms + 2, dim + 2)
+    lvl = sum(gi["noise"]) / n
+    inp["replace"] = dict(points=[[rng.uniform(0, 1) for _ in range(dim)] for _ in range(n2)], values=[rng.uniform(-1, 1) for _ in range(n2)],
+                          noise=[lvl * rng.uniform(0.5, 2) for _ in range(n2)], draw_before=life == "draw-replace" or rng.random() < 0.3)
+    if rng.random() < 0.3:
+      gi["xs"][-1] = list(inp["replace"]["points"][0])       # a query on a training point of the data held now
+  if life.endswith("append_lie"):
+    inp["steps"] = (["draw"] if life.startswith("draw") else []) + ["append_lie"]
+  elif life == "draw-update":
+    inp["steps"] = ["draw", "update"]
+  return inp
 
 
 def search(ctx, hints, broken):
@@ -323,9 +468,22 @@ def search(ctx, hints, broken):
       fails.append(r)
       if len(fails) >= 3:
         break
+  # draws from live GPs over mean kind x life (whole-data replacement, lies, extended data) x diagonal (noise / nugget incl. exactly 0): dense by
+  # construction (index-driven cycles), placed last so that the random stream of the classes above does not depend on it
+  for i in range(ctx.n(140, 1400)):
+    inp = gen_history_samples(ctx.rng, i)
+    n += 1
+    try:
+      r = oracle(inp)
+    except Exception as e:
+      r = dict(signature=f"C17:history:raises:{type(e).__name__}", what=f"draws from a live GP raised {type(e).__name__}: {e}", input=inp, observed=repr(e),
+               expected="samples", oracle="no exception")
+    if r and r["signature"] not in {f["signature"] for f in fails}:
+      fails.append(r)
   return dict(evaluations=n, failures=fails, oracle="max|L L^T - A| against an untouched copy; 6-sigma sample-moment bands; parallel EI (scripted posteriors: "
               "exact rationals; real models: recorded factors + NumPy restatement)",
-              samples=[dict(kind="lowrank", n=4, rank=2, order="F"), dict(kind="qeireal-outcomes", counts=dict(QEIREAL_STATS))])
+              samples=[dict(kind="lowrank", n=4, rank=2, order="F"), dict(kind="qeireal-outcomes", counts=dict(QEIREAL_STATS)),
+                       dict(kind="sample-moment-outcomes", counts=dict(SAMPLE_STATS))])
 
 
 def scripted_qei_oracle(inp):
@@ -354,3 +512,12 @@ LEVEL_TEXT += ("; likewise for ExpectedParallelImprovementWithFailures, where ev
                "real class; searcher: the same statement on real GPs with the real factorisation (recorded factors, seeded NumPy draws)")
 LEVEL_NOTE += ("; sample moments are compared with the posterior mean / covariance of an independent closed form (gpgen saddle point) whenever the data are "
                "those of the input, with the library's own otherwise; sums of GPs also with a weight array rewritten in place after construction")
+
+# --- gap round B (seeded C17_m12 / C17_m13): histories and diagonals of the sampled GP
+LEVEL_NOTE += ("; the posterior the samples are compared with is the independent closed form of THE DATA THE MODEL HOLDS NOW after every history "
+               "(whole data set replaced by fewer / as many / more points elsewhere - update_historical_data with data that do not extend the old ones - "
+               "earlier draws, lies, extended data) for zero / constant / linear / custom polynomial means, and under every diagonal: recorded noise, a "
+               "supplied nugget next to non-zero recorded noise (the nugget replaces it; exactly 0 = an interpolating model whose samples at its training "
+               "points reproduce the data - reading of DESIGN 11.5, a request whose factorisation then fails is skipped); bands = 6 sigma + the "
+               "conditioning-scaled rounding bounds of C02; the samples are also compared with the mean / covariance the model itself reports "
+               "(mean kind x life x diagonal enumerated by index-driven cycles of coprime lengths 4 x 7 x 5)")
